@@ -14,7 +14,7 @@ Local Open Scope bool_scope.
 (* for an arbitrary octet sequence the receiver's verdict equals that of the independent reading of the protocol document; in particular the payload checksum is verified whenever the frame declares one *)
 Theorem C07_verdict_is_the_documents :
   forall raw : list N, to_sverdict raw = spec_classify raw.
-Proof. exact classify_agrees. Qed.
+Proof. exact (@classify_agrees). Qed.
 Print Assumptions C07_verdict_is_the_documents.
 
 (* the four error ids are the four fault classes *)
@@ -43,7 +43,7 @@ Theorem C07_verdict_vocabulary :
              | _ => False
              end
          end.
-Proof. exact to_sverdict_parse_frame. Qed.
+Proof. exact (@to_sverdict_parse_frame). Qed.
 Print Assumptions C07_verdict_vocabulary.
 
 (* payload faults of requests are answered with the error response, header faults by the meta message (C09_reception_cases); nothing is executed (C06_failed_reception_never_executes) *)
@@ -62,19 +62,19 @@ Theorem C07_payload_faults_answered :
                                  | _ => false
                                  end then R_EPAYLOADCRC else R_EPAYLOADSIZE)
              else [])).
-Proof. exact process_payload_fault. Qed.
+Proof. exact (@process_payload_fault). Qed.
 Print Assumptions C07_payload_faults_answered.
 
 (* CRC-16/ARC of a damaged message = CRC of the message xor CRC of the damage *)
 Theorem C07_crc_linear :
   forall a e : list N, length a = length e -> spec_crc 0 (lxor_list a e) = N.lxor (spec_crc 0 a) (spec_crc 0 e).
-Proof. exact crc_error. Qed.
+Proof. exact (@crc_error). Qed.
 Print Assumptions C07_crc_linear.
 
 (* any damage inside a window of 16 consecutive bits, anywhere in a message of any length *)
 Theorem C07_crc_detects_bursts :
   forall e : list N, burst16 e -> spec_crc 0 e <> 0.
-Proof. exact burst_detected. Qed.
+Proof. exact (@burst_detected). Qed.
 Print Assumptions C07_crc_detects_bursts.
 
 (* any two damaged bits less than 32767 bits apart *)
@@ -82,7 +82,7 @@ Theorem C07_crc_detects_two_bits :
   forall (a : nat) (i : N) (d : nat) (j : N) (b : nat),
          i < 8 ->
          j < 8 -> (d < 4094)%nat -> spec_crc 0 (repeat 0 a ++ [2 ^ i] ++ repeat 0 d ++ [2 ^ j] ++ repeat 0 b) <> 0.
-Proof. exact two_bits_detected. Qed.
+Proof. exact (@two_bits_detected). Qed.
 Print Assumptions C07_crc_detects_two_bits.
 
 (* frames without payload-checksum field: damage e on sequence/address/size, x on the stored checksum is reported as header-checksum fault unless CRC(e) = x *)
@@ -110,7 +110,7 @@ Theorem C07_header_fields_partial :
                                     :: N.lxor n2 e9
                                        :: N.lxor n1 e10 :: N.lxor n0 e11 :: N.lxor c1 x1 :: N.lxor c0 x0 :: payload') =
          SBadHeaderCrc.
-Proof. exact hd_corruption. Qed.
+Proof. exact (@hd_corruption). Qed.
 Print Assumptions C07_header_fields_partial.
 
 (* ... and when CRC(e) = x the header check passes (the frame is then judged by its payload size only) *)
@@ -141,7 +141,7 @@ Theorem C07_header_fields_unseen :
            (fields_of w0 (N.lxor s1 e2) (N.lxor s0 e3) (N.lxor a3 e4) (N.lxor a2 e5) (N.lxor a1 e6) 
               (N.lxor a0 e7) (N.lxor n3 e8) (N.lxor n2 e9) (N.lxor n1 e10) (N.lxor n0 e11))
            (256 * N.lxor c1 x1 + N.lxor c0 x0) 0 payload'.
-Proof. exact hd_corruption_unseen. Qed.
+Proof. exact (@hd_corruption_unseen). Qed.
 Print Assumptions C07_header_fields_unseen.
 
 (* in particular every burst and every two-bit error inside the protected fields (CRC(e) <> 0 by the two theorems above) ... *)
@@ -166,7 +166,7 @@ Theorem C07_header_fields_inside :
                                  :: N.lxor n3 e8
                                     :: N.lxor n2 e9 :: N.lxor n1 e10 :: N.lxor n0 e11 :: c1 :: c0 :: payload') =
          SBadHeaderCrc.
-Proof. exact hd_fields_error. Qed.
+Proof. exact (@hd_fields_error). Qed.
 Print Assumptions C07_header_fields_inside.
 
 (* ... and every error confined to the stored checksum *)
@@ -185,7 +185,7 @@ Theorem C07_header_checksum_inside :
             :: m0
                :: s1 :: s0 :: a3 :: a2 :: a1 :: a0 :: n3 :: n2 :: n1 :: n0 :: N.lxor c1 x1 :: N.lxor c0 x0 :: payload') =
          SBadHeaderCrc.
-Proof. exact hd_checksum_error. Qed.
+Proof. exact (@hd_checksum_error). Qed.
 Print Assumptions C07_header_checksum_inside.
 
 (* one damaged bit in the protected octets and one in the stored checksum: the CRC of a single-bit error is never a single bit *)
@@ -193,7 +193,7 @@ Theorem C07_mixed_two_bits :
   forall (len q : nat) (i k : N),
          len = 12%nat \/ len = 14%nat ->
          (q < len)%nat -> i < 8 -> k < 16 -> crc16arc (repeat 0 q ++ [2 ^ i] ++ repeat 0 (len - 1 - q)) <> 2 ^ k.
-Proof. exact mixed_two_bits. Qed.
+Proof. exact (@mixed_two_bits). Qed.
 Print Assumptions C07_mixed_two_bits.
 
 (* bursts across the last block-size octet and the stored checksum: invisible to the header check exactly for the 63 listed patterns *)
@@ -204,13 +204,13 @@ Theorem C07_boundary_bursts_exactly :
          z < 256 ->
          x <> 0 ->
          shape3 x y z -> crc16arc [0; 0; 0; 0; 0; 0; 0; 0; 0; 0; 0; x] = 256 * y + z <-> In (x, y, z) unseen_bursts.
-Proof. exact nopl_boundary_burst. Qed.
+Proof. exact (@nopl_boundary_burst). Qed.
 Print Assumptions C07_boundary_bursts_exactly.
 
 (* their number *)
 Theorem C07_unseen_patterns :
   length unseen_bursts = 63%nat.
-Proof. exact unseen_count. Qed.
+Proof. exact (@unseen_count). Qed.
 Print Assumptions C07_unseen_patterns.
 
 (* for frames whose block size is cross-checked against the payload (responses, writes) these bursts change the block size and are reported as size fault *)
@@ -251,7 +251,7 @@ Theorem C07_cross_checked_frames_partial :
                                     :: N.lxor n3 e8
                                        :: N.lxor n2 e9
                                           :: N.lxor n1 e10 :: N.lxor n0 e11 :: N.lxor c1 x1 :: N.lxor c0 x0 :: payload)).
-Proof. exact nopl_frame_fault. Qed.
+Proof. exact (@nopl_frame_fault). Qed.
 Print Assumptions C07_cross_checked_frames_partial.
 
 (* frames with payload-checksum field: every damage behind the first word that the header check misses changes block size or payload checksum and is reported *)
@@ -299,7 +299,7 @@ Theorem C07_payload_frames_partial :
                                              :: N.lxor n0 e11
                                                 :: N.lxor c1 x1
                                                    :: N.lxor c0 x0 :: N.lxor p1 y1 :: N.lxor p0 y0 :: payload)).
-Proof. exact pl_frame_fault. Qed.
+Proof. exact (@pl_frame_fault). Qed.
 Print Assumptions C07_payload_frames_partial.
 
 (* same layout: the header-checksum criterion *)
@@ -330,7 +330,7 @@ Theorem C07_payload_frames_header :
                                              :: N.lxor c1 x1
                                                 :: N.lxor c0 x0 :: N.lxor p1 y1 :: N.lxor p0 y0 :: payload') =
          SBadHeaderCrc.
-Proof. exact hd_pl_corruption. Qed.
+Proof. exact (@hd_pl_corruption). Qed.
 Print Assumptions C07_payload_frames_header.
 
 (* same layout: any error confined to the stored header checksum *)
@@ -353,7 +353,7 @@ Theorem C07_payload_frames_checksum :
                         :: a2
                            :: a1 :: a0 :: n3 :: n2 :: n1 :: n0 :: N.lxor c1 x1 :: N.lxor c0 x0 :: p1 :: p0 :: payload') =
          SBadHeaderCrc.
-Proof. exact hd_pl_checksum_error. Qed.
+Proof. exact (@hd_pl_checksum_error). Qed.
 Print Assumptions C07_payload_frames_checksum.
 
 (* damaged payload octets (burst, two bits: CRC of the damage <> 0) are reported as payload-checksum fault *)
@@ -376,7 +376,7 @@ Theorem C07_payload_octets :
                :: s1
                   :: s0 :: a3 :: a2 :: a1 :: a0 :: n3 :: n2 :: n1 :: n0 :: c1 :: c0 :: p1 :: p0 :: lxor_list payload ep) =
          SBadPayloadCrc h (lxor_list payload ep).
-Proof. exact payload_error. Qed.
+Proof. exact (@payload_error). Qed.
 Print Assumptions C07_payload_octets.
 
 (* a single damaged bit in the first header word, other than the two checksum option bits: malformed header or header-checksum fault *)
@@ -400,7 +400,7 @@ Theorem C07_first_word_other_bits :
            (spec_classify
               (N.lxor m1 d1
                :: N.lxor m0 d0 :: s1 :: s0 :: a3 :: a2 :: a1 :: a0 :: n3 :: n2 :: n1 :: n0 :: c1 :: c0 :: rest)).
-Proof. exact first_word_other_bits. Qed.
+Proof. exact (@first_word_other_bits). Qed.
 Print Assumptions C07_first_word_other_bits.
 
 (* the header-checksum option bit: the checksum octets count as payload, size fault *)
@@ -418,7 +418,7 @@ Theorem C07_first_word_hdcrc_bit :
          is_fault
            (spec_classify
               (N.lxor m1 2 :: m0 :: s1 :: s0 :: a3 :: a2 :: a1 :: a0 :: n3 :: n2 :: n1 :: n0 :: c1 :: c0 :: rest)).
-Proof. exact first_word_hdcrc_bit. Qed.
+Proof. exact (@first_word_hdcrc_bit). Qed.
 Print Assumptions C07_first_word_hdcrc_bit.
 
 (* the payload-checksum option bit: header too short, header-checksum fault or size fault *)
@@ -436,7 +436,7 @@ Theorem C07_first_word_plcrc_bit :
          is_fault
            (spec_classify
               (N.lxor m1 4 :: m0 :: s1 :: s0 :: a3 :: a2 :: a1 :: a0 :: n3 :: n2 :: n1 :: n0 :: c1 :: c0 :: rest)).
-Proof. exact first_word_plcrc_bit. Qed.
+Proof. exact (@first_word_plcrc_bit). Qed.
 Print Assumptions C07_first_word_plcrc_bit.
 
 (* truncated or extended behind an intact header: size fault *)
@@ -452,7 +452,7 @@ Theorem C07_resized_frames :
          length payload <> length payload' ->
          spec_classify (m1 :: m0 :: s1 :: s0 :: a3 :: a2 :: a1 :: a0 :: n3 :: n2 :: n1 :: n0 :: c1 :: c0 :: payload') =
          SBadSize h payload'.
-Proof. exact resized_payload_hd. Qed.
+Proof. exact (@resized_payload_hd). Qed.
 Print Assumptions C07_resized_frames.
 
 (* the same with payload checksum *)
@@ -469,7 +469,7 @@ Theorem C07_resized_frames_pl :
          spec_classify
            (m1 :: m0 :: s1 :: s0 :: a3 :: a2 :: a1 :: a0 :: n3 :: n2 :: n1 :: n0 :: c1 :: c0 :: p1 :: p0 :: payload') =
          SBadSize h payload'.
-Proof. exact resized_payload_hd_pl. Qed.
+Proof. exact (@resized_payload_hd_pl). Qed.
 Print Assumptions C07_resized_frames_pl.
 
 (* cut inside the header it announces (incl. the empty frame): bad header encoding *)
@@ -481,7 +481,7 @@ Theorem C07_truncated_header :
             opt_hdcrc (((256 * m1 + m0) / 256) mod 16) = true /\
             ((length raw < 14)%nat \/ opt_plcrc (((256 * m1 + m0) / 256) mod 16) = true /\ (length raw < 16)%nat)) ->
          spec_classify raw = SBadHeader.
-Proof. exact truncated_header. Qed.
+Proof. exact (@truncated_header). Qed.
 Print Assumptions C07_truncated_header.
 
 (* REFUTATION of the burst clause: a valid read request for 5 octets, a 9-bit burst, a valid read request for 9 octets *)
@@ -490,6 +490,6 @@ Theorem C07_burst_refuted :
          burst16 witness_error /\
          (exists (h : hfields) (c : N),
             spec_classify (lxor_list witness_frame witness_error) = SAccept h c 0 [] /\ h_type h = 0 /\ h_bsize h = 9).
-Proof. exact burst_unseen_witness. Qed.
+Proof. exact (@burst_unseen_witness). Qed.
 Print Assumptions C07_burst_refuted.
 
